@@ -8,5 +8,6 @@ CONSTANTS
   NodeCounts = {3}
   SimCounts = {3}
   DefaultConc = 16
+  BaseOutcomes = {"accept", "reject", "treject", "malformed", "slowok", "late", "hang"}
 INVARIANTS Emit
 CHECK_DEADLOCK FALSE
